@@ -73,6 +73,14 @@ var c08IllTyped = []struct{ name, patch, stmt string }{
 	{"nil-else-metavar", "@@\nvar x expression\n@@\n-return x\n+return wrap(x)\n", "return"},
 	// a target with //line directives: positions reported by the file set are not physical lines
 	{"line-directive-target", "@@\n@@\n-foo(...)\n+bar()\n", "//line other.go:100\n\tfoo(1,\n\t\t2,\n\t\t3)"},
+	// two changes match one file; the first removes code that contains a comment group
+	{"two-changes-comment-only-funclit", "@@\n@@\n setup()\n-trace(...)\n run()\n\n@@\n@@\n-oldName()\n+newName()\n", "setup()\n\ttrace(func() {\n\t\t// only while debugging\n\t})\n\trun()\n\toldName()"},
+	{"two-changes-comment-and-stmt", "@@\n@@\n setup()\n-trace(...)\n run()\n\n@@\n@@\n-oldName()\n+newName()\n", "setup()\n\ttrace(func() {\n\t\t// note\n\t\tdump()\n\t})\n\trun()\n\toldName()"},
+	{"two-changes-trailing-comment", "@@\nvar x expression\n@@\n-drop(x)\n\n@@\n@@\n-oldName()\n+newName()\n", "drop(1) // trailing\n\t// own line\n\toldName() /* inline */"},
+	{"two-changes-block-comments", "@@\n@@\n-if debug {\n-  ...\n-}\n\n@@\n@@\n-oldName\n+newName\n", "if debug {\n\t\t// a\n\t\tlog() // b\n\t\t/* c */\n\t}\n\toldName()"},
+	// many elisions in one list against a long, almost matching list
+	{"many-dots-long-list", "@@\n@@\n-f(..., 1, ..., 1, ..., 1, ..., 1, ..., 1, ..., 1, ..., 1, ..., 1, ..., 1, ..., 1, ..., 1, ..., 1, 2)\n+g()\n", "f(1, 1, 1, 1, 1, 1, 1, 1, 1, 1, 1, 1, 1, 1, 1, 1, 1, 1, 1, 1, 1, 1, 1, 1, 1, 1, 1, 1, 1, 1, 1, 1, 1, 1, 1, 1, 1, 1, 1, 1)"},
+	{"many-dots-stmts", "@@\n@@\n {\n   ...\n-  a()\n   ...\n-  a()\n   ...\n-  a()\n   ...\n-  a()\n   ...\n-  a()\n   ...\n-  a()\n   ...\n-  a()\n   ...\n-  a()\n   ...\n   b()\n }\n", "a()\n\ta()\n\ta()\n\ta()\n\ta()\n\ta()\n\ta()\n\ta()\n\ta()\n\ta()\n\ta()\n\ta()\n\ta()\n\ta()\n\ta()\n\ta()\n\ta()\n\ta()\n\ta()\n\ta()\n\ta()\n\ta()\n\ta()\n\ta()\n\ta()\n\ta()\n\ta()\n\ta()\n\ta()\n\ta()"},
 	{"line-directive-before-func", "@@\n@@\n-foo(...)\n+bar()\n", "foo(1,\n\t\t2)\n}\n\n//line gen.y:7\nfunc g() {\n\tfoo(3,\n\t\t4)"},
 }
 
